@@ -14,10 +14,32 @@ import (
 	"time"
 
 	"verif/lint/internal/core"
+	"verif/lint/internal/normalize"
 	"verif/lint/internal/rules"
 )
 
 func main() {
+	if len(os.Args) >= 2 && os.Args[1] == "funcs" {
+		// lemolint funcs [--repo dir]: print the reference table of declared functions (reference/functions.txt)
+		fs := flag.NewFlagSet("funcs", flag.ExitOnError)
+		repo := fs.String("repo", "/repo", "repository")
+		fs.Parse(os.Args[2:])
+		abs, _ := filepath.Abs(*repo)
+		scanned, err := normalize.Scan(abs)
+		if err != nil {
+			fmt.Println(err)
+			os.Exit(2)
+		}
+		var keys []string
+		for k := range scanned {
+			keys = append(keys, k)
+		}
+		sort.Strings(keys)
+		for _, k := range keys {
+			fmt.Println(k)
+		}
+		return
+	}
 	if len(os.Args) < 3 || os.Args[1] != "check" {
 		fmt.Println("usage: lemolint check <Cxx>|all [--repo dir] [--verif dir] [--tier quick|thorough] [--list]")
 		os.Exit(2)
@@ -42,7 +64,35 @@ func main() {
 	if *goenv != "" {
 		env = strings.Split(*goenv, ",")
 	}
-	prog, err := core.Load(absRepo, env)
+	// extract-function refactorings are undone first: private helpers the reference tree does not know are inlined into their callers
+	var overlay map[string][]byte
+	var normNotes []string
+	if known, kerr := readKnown(filepath.Join(*verif, "reference", "functions.txt")); kerr == nil && os.Getenv("LEMOLINT_NO_NORMALIZE") == "" {
+		if scanned, serr := normalize.Scan(absRepo); serr == nil && len(normalize.NewPrivate(scanned, known)) > 0 {
+			res, nerr := normalize.Run(absRepo, env, known)
+			switch {
+			case nerr != nil:
+				normNotes = append(normNotes, "normalisation of new private helpers failed, the tree is analysed as it is: "+nerr.Error())
+			default:
+				overlay = res.Overlay
+				if len(res.Inlined) > 0 {
+					normNotes = append(normNotes, "new private helpers inlined into their callers before the analysis: "+strings.Join(res.Inlined, ", "))
+				}
+				if len(res.Kept) > 0 {
+					normNotes = append(normNotes, "new private helpers analysed as they are: "+strings.Join(res.Kept, "; "))
+				}
+			}
+		}
+	}
+	prog, err := core.LoadOverlay(absRepo, env, overlay)
+	if err != nil && overlay != nil {
+		normNotes = append(normNotes, "the normalised tree does not load ("+err.Error()+"); the tree is analysed as it is")
+		overlay = nil
+		prog, err = core.LoadOverlay(absRepo, env, nil)
+	}
+	for _, n := range normNotes {
+		fmt.Println("note:", n)
+	}
 	if err != nil {
 		fmt.Println("load failed:", err)
 		fmt.Printf("VIOLATION property=%s replay=load-failure\n", prop)
@@ -75,6 +125,9 @@ func main() {
 	for _, id := range props {
 		t0 := time.Now()
 		c := core.NewCtx(prog, id, *tier)
+		for _, n := range normNotes {
+			c.Note("%s", n)
+		}
 		func() {
 			defer func() {
 				if r := recover(); r != nil {
@@ -113,4 +166,22 @@ func envOr(k, d string) string {
 		return v
 	}
 	return d
+}
+
+// readKnown reads the reference table of declared functions.
+func readKnown(path string) (map[string]bool, error) {
+	b, err := os.ReadFile(path)
+	if err != nil {
+		return nil, err
+	}
+	out := map[string]bool{}
+	for _, l := range strings.Split(string(b), "\n") {
+		if l != "" {
+			out[l] = true
+		}
+	}
+	if len(out) < 1000 {
+		return nil, fmt.Errorf("reference table too small")
+	}
+	return out, nil
 }
